@@ -395,7 +395,72 @@ def engine_tokens(model, info, art):
     return ("confirmed" if problems else "contradicted"), "; ".join(problems) or f"subscriptions end as asked (temporary ids left: {left})"
 
 
+def policy_case(n, raising, ignore):
+    """n callbacks on 'event', those in `raising` raise (each its own exception): the clause of contracts/C19.py: process[n]"""
+    d = Dispatcher()
+    d.ignore_exceptions = ignore
+    log = []
+    booms = [ValueError(f"boom{i}") for i in range(n)]
+    doc = {}
+
+    def make(i):
+        def cb(name, dd):
+            log.append((i, name, dd))
+            if i in raising:
+                raise booms[i]
+        return cb
+    for i in range(n):
+        d.subscribe(make(i), "event")
+    try:
+        d.process(DocumentNames.event, doc)
+        r = ("ok", None)
+    except Exception as exc:  # noqa: BLE001
+        r = ("raise", exc)
+    called = [i for i, nm, dd in log]
+    args_ok = all(nm == "event" and dd is doc for i, nm, dd in log)
+    if not raising or ignore:
+        ok = r[0] == "ok" and called == list(range(n)) and args_ok
+    else:
+        ok = r[0] == "raise" and r[1] is booms[raising[0]] and called == list(range(raising[0] + 1)) and args_ok
+    return [] if ok else [f"n={n} raising={raising} ignore_exceptions={ignore}: called {called}, outcome {r!r}, arguments ok: {args_ok}"]
+
+
+def emit(model, info, art):
+    """RunEngine.emit / emit_sync hand the document to the dispatcher exactly once and let its error through"""
+    import asyncio
+
+    from bluesky import RunEngine
+    problems = []
+    for fails in (False, True):
+        for entry in ("emit", "emit_sync"):
+            RE = RunEngine({}, context_managers=[])
+            calls = []
+            boom = ValueError("boom")
+
+            def process(name, doc):
+                calls.append((name, doc))
+                if fails:
+                    raise boom
+            RE.dispatcher.process = process
+            doc = {}
+            try:
+                if entry == "emit":
+                    asyncio.run_coroutine_threadsafe(RE.emit(DocumentNames.event, doc), RE.loop).result(10)
+                else:
+                    RE.emit_sync(DocumentNames.event, doc)
+                r = ("ok", None)
+            except Exception as exc:  # noqa: BLE001
+                r = ("raise", exc)
+            ok = len(calls) == 1 and calls[0][0] is DocumentNames.event and calls[0][1] is doc and (r[0] == "raise" and r[1] is boom if fails else r[0] == "ok")
+            if not ok:
+                problems.append(f"{entry}, dispatcher raises={fails}: dispatcher called {len(calls)} times, outcome {r!r}")
+    return ("confirmed" if problems else "contradicted"), "; ".join(problems) or "emit / emit_sync forward each document once and propagate errors"
+
+
 def policy(model, info, art):
+    if "n" in info:
+        problems = policy_case(info["n"], info["raising"], info["ignore"])
+        return ("confirmed" if problems else "contradicted"), "; ".join(problems) or f"n={info['n']} raising={info['raising']} ignore={info['ignore']}: as the statement demands"
     problems = []
     for ignore in (True, False):
         d = Dispatcher()
@@ -422,3 +487,205 @@ def policy(model, info, art):
         if (log, raised) != want:
             problems.append(f"ignore_exceptions={ignore}: called {log}, raised={raised}")
     return ("confirmed" if problems else "contradicted"), "; ".join(problems) or "delivery order and error policy as documented"
+
+
+# ---------------------------------------------------------------------------------------------- C19: re-entrant (un)subscription
+def resubscription_run(sc):
+    """the scenario of contracts/C19.py: process.resubscription on the real Dispatcher -> problems (replay/c19_clause.py)"""
+    from . import c19_clause as CL
+    n, actor, action, target, raising = sc["n"], sc["actor"], sc["action"], sc["target"], sc["raising"]
+    d = Dispatcher()
+    d.ignore_exceptions = sc["ignore"]
+    docs = [{"doc": 0}, {"doc": 1}]
+    calls = ([], [])
+    st = {"acted": None, "doc": 0, "error": None}
+    tokens = {}
+    boom = ValueError("boom")
+
+    def idx(doc):
+        hits = [i for i, x in enumerate(docs) if x is doc]
+        return hits[0] if hits else -1
+
+    def newcb(name, doc):
+        calls[st["doc"]].append(("new", name, idx(doc)))
+
+    def make(i):
+        def cb(name, doc):
+            calls[st["doc"]].append((f"cb{i}", name, idx(doc)))
+            if i == actor:
+                if st["acted"] is None:
+                    st["acted"] = st["doc"]
+                    try:
+                        if action in (0, 4):
+                            d.unsubscribe(tokens[i])
+                        if action == 1:
+                            d.unsubscribe(tokens[target])
+                        if action in (2, 4):
+                            tokens["new"] = d.subscribe(newcb, sc["new_kind"])
+                    except Exception as exc:  # noqa: BLE001
+                        st["error"] = repr(exc)
+                if action == 3:
+                    raise ReferenceError
+            if i == raising and st["doc"] == 0:
+                raise boom
+        return cb
+    for i in range(n):
+        tokens[i] = d.subscribe(make(i), "event")
+    outs = []
+    for t in (0, 1):
+        st["doc"] = t
+        try:
+            d.process(DocumentNames.event, docs[t])
+            outs.append(("ok",))
+        except Exception as exc:  # noqa: BLE001
+            outs.append(("raise", exc is boom, repr(exc)))
+    return CL.resubscription_problems(sc, st["acted"], st["error"], calls, outs)
+
+
+def resubscription(model, info, art):
+    sc = info.get("scenario")
+    if not sc:
+        return "not-constructible", "no scenario in the counter-model"
+    problems = resubscription_run(sc)
+    return ("confirmed" if problems else "contradicted"), "; ".join(problems[:4]) or f"scenario {sc}: every callback served as the statement demands"
+
+
+# ---------------------------------------------------------------------------------------------- C19: a whole RE(plan) call
+class _Det:
+    name = "det"
+    parent = None
+    hints = {"fields": ["x"]}
+
+    def read(self):
+        return {"x": {"value": 1.0, "timestamp": 0.0}}
+
+    def describe(self):
+        return {"x": {"dtype": "number", "shape": [], "source": "det"}}
+
+    def read_configuration(self):
+        return {}
+
+    def describe_configuration(self):
+        return {}
+
+
+def shape_plan(shape, det):
+    """the plans of contracts/C19.py: shape_msgs, as real generators + the documents they produce when nothing fails"""
+    from bluesky.utils import Msg
+
+    def event(run):
+        yield Msg("create", name="primary", run=run)
+        yield Msg("read", det, run=run)
+        yield Msg("save", run=run)
+    if shape == "one run":
+        def plan():
+            yield Msg("open_run")
+            yield from event(None)
+            yield from event(None)
+            yield Msg("close_run")
+        return plan(), [("start", 0), ("descriptor", 0), ("event", 0), ("event", 0), ("stop", 0)]
+    if shape == "interruptions recorded":
+        def plan():
+            yield Msg("open_run")
+            yield from event(None)
+            yield Msg("close_run")
+        return plan(), [("start", 0), ("descriptor", 0), ("descriptor", 0), ("event", 0), ("stop", 0)]
+    if shape == "two runs":
+        def plan():
+            yield Msg("open_run", run="a")
+            yield Msg("open_run", run="b")
+            yield from event("b")
+            yield Msg("close_run", run="b")
+            yield from event("a")
+        return plan(), [("start", 0), ("start", 1), ("descriptor", 1), ("event", 1), ("stop", 1), ("descriptor", 0), ("event", 0), ("stop", 0)]
+    raise ValueError(shape)
+
+
+def run_policy_run(sc):
+    """the scenario of contracts/C19.py: run[shape] on the real RunEngine -> (delivery, outcome, closing, closing at the stop)"""
+    import logging
+    import warnings
+
+    from bluesky import RunEngine
+
+    from . import c19_clause as CL
+    warnings.simplefilter("ignore")
+    logging.disable(logging.CRITICAL)
+    shape, ignore, role, at, last_kind = sc["shape"], sc["ignore"], sc["role"], sc["at"], sc["last_kind"]
+    RE = RunEngine({}, context_managers=[])
+    RE.ignore_callback_exceptions = ignore
+    if shape == "interruptions recorded":
+        RE.record_interruptions = True
+    plan, full = shape_plan(shape, _Det())
+    E, En, calls, raises = [], [], [], {}
+    real_process = RE.dispatcher.process
+
+    def ledger(name, doc):
+        E.append(doc)
+        En.append(name.name)
+        return real_process(name, doc)
+    RE.dispatcher.process = ledger
+    boom = ValueError("boom")
+    tokens, st = {}, {"acted": None, "error": None}
+
+    def idx(doc):
+        hits = [i for i, x in enumerate(E) if x is doc]
+        return hits[-1] if hits else -1
+
+    def recorder(label):
+        def cb(name, doc):
+            t = idx(doc)
+            calls.append((label, name, t))
+            if label == "c" and role == "raises and so does the last one" and t == at:
+                raise ValueError("boom of the last callback")
+        return cb
+
+    def middle(name, doc):
+        t = idx(doc)
+        calls.append(("x", name, t))
+        if role in ("one-shot", "subscribes another", "replaces itself by another", "unsubscribes the last one") and t == at and st["acted"] is None:
+            st["acted"] = t
+            try:
+                if role in ("one-shot", "replaces itself by another"):
+                    RE.unsubscribe(tokens["x"])
+                if role in ("subscribes another", "replaces itself by another"):
+                    tokens["new"] = RE.subscribe(recorder("new"))
+                if role == "unsubscribes the last one":
+                    RE.unsubscribe(tokens["c"])
+            except Exception as exc:  # noqa: BLE001
+                st["error"] = repr(exc)
+        if (role in ("raises", "raises and so does the last one") and t == at and not raises) or (role == "raises from then on" and t >= at):
+            raises[t] = "x"
+            raise boom
+    tokens["a"] = RE.subscribe(recorder("a"))
+    tokens["x"] = RE.subscribe(middle)
+    tokens["c"] = RE.subscribe(recorder("c"), last_kind)
+    try:
+        RE(plan)
+        outcome = ("ok",)
+    except Exception as exc:  # noqa: BLE001
+        outcome = ("raise", exc is boom, repr(exc))
+    j = st["acted"]
+    subs = [("a", "all", -1, None, None), ("x", "all", -1, j if role in ("one-shot", "replaces itself by another") else None, None),
+            ("c", last_kind, -1, j if role == "unsubscribes the last one" else None, j if role == "unsubscribes the last one" else None)]
+    if role in ("subscribes another", "replaces itself by another") and j is not None:
+        subs.append(("new", "all", j, None, j))
+    docs = [{"name": nm, "uid": x.get("uid"), "run_start": x.get("run_start"), "exit_status": x.get("exit_status")} for nm, x in zip(En, E)]
+    delivery, out, closing, closing_at_stop = CL.run_problems(docs, calls, subs, raises, ignore, outcome, full)
+    if RE.state != "idle":
+        out.append(f"the engine is left in state {RE.state!r}")
+    if st["error"]:
+        delivery.append(f"(un)subscribing from inside the callback raised {st['error']}")
+    if role in ("one-shot", "subscribes another", "replaces itself by another", "unsubscribes the last one") and j is None:
+        delivery.append(f"the middle callback never saw document #{at}")
+    return delivery, out, closing, closing_at_stop
+
+
+def run_policy(model, info, art):
+    sc = info.get("scenario")
+    if not sc:
+        return "not-constructible", "no scenario in the counter-model"
+    delivery, out, closing, closing_at_stop = run_policy_run(sc)
+    # the clause of the obligation being replayed
+    mine = {"delivery": delivery, "outcome": out, "closing": closing, "at_stop": closing_at_stop}[info.get("clause", "delivery")]
+    return ("confirmed" if mine else "contradicted"), "; ".join(mine[:4]) or f"scenario {sc}: clause holds natively"
